@@ -591,6 +591,83 @@ example : ∃ qp q0 qs qn, emitQuick (ccInfo 3) qkT1 = some qp ∧ VM.init qp (0
     ⟨qp, q0, qs, qn, rfl, g1, g2, by rw [hv]; decide⟩
   | none => absurd hq (by decide)
 
+/-- **(D4) `compile_correct_find_quick` — the scan.**  Under the hypotheses of `compile_correct_quick`, for every start
+    of the scan: `Spec.find` (in the direction of the tree) returns `st` exactly when the scan order splits as
+    `before ++ i :: after` such that at `i` BOTH programs halt matched at the text position `st.pos` — the bool-only
+    program with the kept captures of `st`, the main program with all of them, `st` being the specification's attempt
+    at `i` — and at every earlier position both programs halt unmatched.  So the first position in scan order at which
+    the bool-only attempt succeeds is the first at which the main program's does, is the position `Spec.find`
+    reports, and the end positions agree.  (The engine's `scan` is this naive scan up to the accelerations of C03.) -/
+theorem compile_correct_find_quick (ti : TreeInfo) (t : GoNode) (TPx : TP) (env : VM.Env) (se : Spec.Env) (pat : Pat)
+    (start : Nat) (qp : Code.Prog) (hstart : start ≤ se.n) (hfrag : InFrag 8 TPx ti t = true) (hwf : treeWf ti t = true)
+    (hpat : toPatRoot TPx ti.rtl t = some pat) (hrel : EnvRel TPx (codeFromTree (mainCfg ti) t).2.sets env se)
+    (hlen : se.n < 2147483647) (henv : env.ecma = false) (hq : emitQuick ti t = some qp) (st : St) :
+    Spec.find se pat ti.rtl start = some st ↔
+      ∃ (before : List Nat) (i : Nat) (after : List Nat), Spec.scanOrder ti.rtl start se.n = before ++ i :: after ∧
+        (∃ s0 s n q0 qs qn,
+          VM.init (emit ti t) (i : Int) = .ok s0 ∧ (∀ fuel, n ≤ fuel → (VM.run (emit ti t) env fuel s0).1 = .done s) ∧
+          VM.init qp (i : Int) = .ok q0 ∧ (∀ fuel, qn ≤ fuel → (VM.run qp env fuel q0).1 = .done qs) ∧
+          VM.matched qs = true ∧ VM.matched s = true ∧ qs.textpos = (st.pos : Int) ∧ s.textpos = (st.pos : Int) ∧
+          CapRep (slotOf ti) (capsize ti) qs.cap (eraseCaps (quickKeep ti t) st).caps ∧
+          CapRep (slotOf ti) (capsize ti) s.cap st.caps ∧ Spec.attempt se pat ti.rtl i = some st) ∧
+        ∀ j ∈ before, ∃ s0 s n q0 qs qn,
+          VM.init (emit ti t) (j : Int) = .ok s0 ∧ (∀ fuel, n ≤ fuel → (VM.run (emit ti t) env fuel s0).1 = .done s) ∧
+          VM.init qp (j : Int) = .ok q0 ∧ (∀ fuel, qn ≤ fuel → (VM.run qp env fuel q0).1 = .done qs) ∧
+          VM.matched qs = false ∧ VM.matched s = false := by
+  have hatt := fun j (hj : j ≤ se.n) =>
+    compile_correct_quick ti t TPx env se pat j qp hfrag hwf hpat hrel hj hlen henv hq
+  have hpos : ∀ j ∈ Spec.scanOrder ti.rtl start se.n, j ≤ se.n := fun j hj => mem_scanOrder_le ti.rtl start se.n j hstart hj
+  unfold find
+  rw [List.findSome?_eq_some_iff]
+  constructor
+  · rintro ⟨before, i, after, hso, hat, hbef⟩
+    refine ⟨before, i, after, hso, ?_, ?_⟩
+    · obtain ⟨s0, s, n, q0, qs, qn, h1, h2, g1, g2, hv, hvs, _, hst⟩ := hatt i (hpos i (by rw [hso]; simp))
+      obtain ⟨a, b, c, d⟩ := hst st hat
+      have hqm : VM.matched qs = true := by rw [hv, hat]; rfl
+      exact ⟨s0, s, n, q0, qs, qn, h1, h2, g1, g2, hqm, by rw [← hvs]; exact hqm, a, b, c, d, hat⟩
+    · intro j hj
+      obtain ⟨s0, s, n, q0, qs, qn, h1, h2, g1, g2, hv, hvs, _, _⟩ := hatt j (hpos j (by rw [hso]; simp [hj]))
+      have hqm : VM.matched qs = false := by rw [hv, hbef j hj]; rfl
+      exact ⟨s0, s, n, q0, qs, qn, h1, h2, g1, g2, hqm, by rw [← hvs]; exact hqm⟩
+  · rintro ⟨before, i, after, hso, ⟨_, _, _, _, _, _, _, _, _, _, _, _, _, _, _, _, hat⟩, hbef⟩
+    refine ⟨before, i, after, hso, hat, ?_⟩
+    intro j hj
+    obtain ⟨_, _, _, q0, qs, qn, _, _, g1, g2, hm, _⟩ := hbef j hj
+    obtain ⟨_, _, _, q0', qs', qn', _, _, g1', g2', hv, _⟩ := hatt j (hpos j (by rw [hso]; simp [hj]))
+    have hq0 : q0 = q0' := by rw [g1] at g1'; exact Except.ok.inj g1'
+    subst hq0
+    have hss : qs = qs' := run_done_unique' _ env q0 qs qs' _ _ (g2 (max qn qn') (by omega)) (g2' (max qn qn') (by omega))
+    subst hss
+    rw [hv] at hm
+    cases hatt' : Spec.attempt se pat ti.rtl j with
+    | none => rfl
+    | some x => rw [hatt'] at hm; simp at hm
+
+-- `(a)(b)\1` on "xaba" from 0: the specification finds the match at 1 ending at 4 (`xabaEnv`, part A); position 0 is the
+-- only earlier one, there both programs fail, at 1 both match and stand at 4
+example : Spec.find (ccSe [120, 97, 98, 97]) abaPat false 0 = some { pos := 4, caps := [(1, 1, 1), (2, 2, 1), (0, 1, 3)] } := by decide
+example : Spec.scanOrder false 0 4 = [0] ++ 1 :: [2, 3, 4] := by decide
+example : (qkRun (ccInfo 3) qkT1 (ccEnv [] (ccSe [120, 97, 98, 97])) 0 60).map (·.1) = some false ∧
+    (ccRun (ccInfo 3) qkT1 (ccEnv [] (ccSe [120, 97, 98, 97])) 0 60).map (·.1) = some false ∧
+    qkRun (ccInfo 3) qkT1 (ccEnv [] (ccSe [120, 97, 98, 97])) 1 60 = some (true, 4, [[1, 3], [1, 1], []]) ∧
+    ccRun (ccInfo 3) qkT1 (ccEnv [] (ccSe [120, 97, 98, 97])) 1 60 = some (true, 4, [[1, 3], [1, 1], [2, 1]]) := by decide
+/-- the hypotheses of `compile_correct_find_quick` hold for this instance, so the right-hand side does: some position of
+    the scan order has the bool-only program matched and standing at 4 -/
+example : ∃ qp i q0 qs qn, emitQuick (ccInfo 3) qkT1 = some qp ∧ i ∈ Spec.scanOrder false 0 4 ∧ VM.init qp (i : Int) = .ok q0 ∧
+    (∀ fuel, qn ≤ fuel → (VM.run qp (ccEnv [] (ccSe [120, 97, 98, 97])) fuel q0).1 = .done qs) ∧
+    VM.matched qs = true ∧ qs.textpos = 4 :=
+  match hq : emitQuick (ccInfo 3) qkT1 with
+  | some qp =>
+    let ⟨before, i, after, hso, ⟨_, _, _, q0, qs, qn, _, _, g1, g2, hm, _, hp, _⟩, _⟩ :=
+      (compile_correct_find_quick (ccInfo 3) qkT1 ccTP (ccEnv [] (ccSe [120, 97, 98, 97])) (ccSe [120, 97, 98, 97]) abaPat 0 qp
+        (by decide) (by decide) (by decide) (by rfl) (ccRel _ _) (by decide) rfl hq
+        { pos := 4, caps := [(1, 1, 1), (2, 2, 1), (0, 1, 3)] }).mp (by decide)
+    ⟨qp, i, q0, qs, qn, rfl, by
+      have : Spec.scanOrder false 0 4 = before ++ i :: after := hso
+      rw [this]; simp, g1, g2, hm, hp⟩
+  | none => absurd hq (by decide)
+
 end QuickCompile
 
 end RegexVerif.Props.C02
